@@ -98,7 +98,9 @@ SubStateGuards(post, st) ==
       G("C01", SeqSet(s.queue) \cup LeasedMsgs(s) \subseteq s.posted),
       G("C02", s.acked \cap (SeqSet(s.queue) \cup LeasedMsgs(s)) = {}),
       G("C03", \A a, b \in DOMAIN s.lease : a # b => s.lease[a].m # s.lease[b].m),
-      G("C03", LeasedMsgs(s) \cap SeqSet(s.queue) = {}),
+      \* (a message that is outstanding AND queued exists twice: acknowledging one copy leaves the
+      \* other to be delivered after the acknowledgement - C02)
+      G("C02,C03", LeasedMsgs(s) \cap SeqSet(s.queue) = {}),
       G("C03", NoDup(s.queue)),
       G("C03", DOMAIN s.lease \subseteq s.used),
       G("C11", s.st = "deleted" => (s.queue = <<>> /\ s.lease = Empty)) }
@@ -527,7 +529,11 @@ EvGuards(e) ==
              THEN SubStateGuards([SubAfterExpire(S[e.si], e.acks) EXCEPT !.queue = e.st.backlog], e.st) ELSE {})
       [] e.k = "s.stats" ->
             IF SiKnown(e) THEN SubStateGuards(S[e.si], e.st) ELSE { G("BIND", FALSE) }
-      [] e.k \in {"s.del0", "s.del1", "s.delret", "s.exit"} -> { G("BIND", SiKnown(e)) }
+      [] e.k \in {"s.del0", "s.del1", "s.exit"} -> { G("BIND", SiKnown(e)) }
+      \* the actor's Delete handler returns: a deletion that began is carried through - it does not
+      \* fail and leave the subscription half deleted (registered under its name, serving nothing)
+      [] e.k = "s.delret" -> { G("BIND", SiKnown(e)),
+                               G("C10,C11", (SiKnown(e) /\ ~e.ok) => S[e.si].st # "deleting") }
       [] e.k \in {"t.start", "s.start", "t.pubdone", "t.exit", "mark", "sopened", "sclose", "sleft"} -> {}
       [] e.k = "inv" -> { G("BIND", e.c \notin DOMAIN pend) }
       [] e.k = "srecv" ->
@@ -600,6 +606,9 @@ EvGuards(e) ==
                             \A si \in DOMAIN S : (S[si].st = "live" /\ S[si].push # "" /\ S[si].push # "dead") =>
                                 (S[si].posted \subseteq S[si].acked /\ S[si].inbox = <<>>)),
               G("C11", C11_AttachedExact),
+              \* no call is pending any more: a subscription whose deletion began but never finished is
+              \* stuck half deleted for ever (still registered under its name, serves nothing)
+              G("C10,C11", \A si \in DOMAIN S : S[si].st # "deleting"),
               G("C14", C14_RegistryExact),
               G("C16", C16_Attached) }
       [] OTHER -> { G("BIND", FALSE) }
